@@ -58,6 +58,29 @@ class Site:
         return "%s|%s|%s|%d" % (self.fn, self.kind, self.desc, self.ordinal)
 
 
+_CAPDESC = {}
+
+
+def capture_descriptions(crate, E, p, depth=0):
+    """{capture index: description in the enclosing function} of closure p (memoised)"""
+    if p in _CAPDESC or depth > 4:
+        return _CAPDESC.get(p, {})
+    _CAPDESC[p] = {}
+    f = crate.fns.get(p)
+    par = f.j.get("closure_of") if f is not None else None
+    if not par or par not in crate.fns or not crate.fns[par].body:
+        return _CAPDESC[p]
+    if crate.fns[par].j.get("kind") == "Closure":
+        capture_descriptions(crate, E, par, depth + 1)
+    pfa = E.fa(par)
+    PS = Sym(E, pfa)
+    for b, i, s0 in pfa.stmts():
+        rv = s0.get("rv") or {}
+        if rv.get("k") == "agg" and rv.get("agg") == "closure" and rv.get("closure") == p:
+            _CAPDESC[p] = {k: describe(pfa, PS, o) for k, o in enumerate(rv["ops"])}
+    return _CAPDESC[p]
+
+
 def describe(fa, S, op, depth=0):
     """Stable, line-free and rename-free description of an operand: constants, parameter
     numbers, field names, callee names and operator structure (never local variable names)."""
@@ -77,6 +100,12 @@ def describe(fa, S, op, depth=0):
               and e.get("v") not in ("Some", "Ok", "Continue")]
     suffix = "".join("." + x for x in fields)
     l = pl["l"]
+    if l == 1 and fields and fields[0].startswith("#") and fa.fn.j.get("kind") == "Closure":
+        # a captured variable is described as the enclosing function describes it, so that a
+        # statement keeps its description when it moves into (or out of) a closure
+        cd = _CAPDESC.get(fa.fn.path, {}).get(int(fields[0][1:]))
+        if cd is not None:
+            return cd + "".join("." + x for x in fields[1:])
     if 1 <= l <= fa.arg_count:
         return "arg%d" % l + suffix
     if depth > 4:
@@ -109,10 +138,13 @@ def describe(fa, S, op, depth=0):
 
 def enumerate_sites(crate, E, fns):
     sites = []
+    _CAPDESC.clear()
     for p in sorted(fns):
         f = crate.fns[p]
         fa = E.fa(p)
         S = Sym(E, fa)
+        if f.j.get("kind") == "Closure":
+            capture_descriptions(crate, E, p)
         live = fa.live_blocks()
         per_desc = {}
         for b in sorted(live):
@@ -1505,12 +1537,32 @@ def run_tok(ctx):
     stale = [p_ for p_ in patterns if id(p_) not in live]
     absorbed = {}
 
+    import inline as _inl
+    moved = {}
+
+    def _moved_to(base):
+        """functions that took over the body of a function of the confirmed tree that matched
+        `base` and no longer exists (a private helper merged into its only caller)"""
+        if base not in moved:
+            out = set()
+            for path in _inl.baseline():
+                if base in path and not dict.__contains__(crate.fns, path):
+                    g, seen_ = _inl.sole_caller(path), set()
+                    while g is not None and g not in seen_:
+                        seen_.add(g)
+                        if dict.__contains__(crate.fns, g):
+                            out.add(g)
+                            break
+                        g = _inl.sole_caller(g)
+            moved[base] = out
+        return moved[base]
+
     def _respelled(s_):
         parent = re.sub(r"(::\{closure#\d+\})+$", "", s_.fn)
         head = s_.desc.split("(", 1)[0]
         for p_ in stale:
             base = p_["fn"].split("::{closure")[0]
-            if base not in parent:
+            if base not in parent and parent not in _moved_to(base):
                 continue
             rx_head = re.match(r"[A-Za-z_:<>]*", re.sub(r"\\(.)", r"\1", p_["rx"])).group(0)
             if rx_head and rx_head.split("::")[-1] not in head and head.split("::")[-1] not in rx_head:
